@@ -1,8 +1,262 @@
 /-
   C12 — property theorems (see DESIGN.md §6 C12).  Helper lemmas live in Proofs/.
+
+  "Macro calls equal their expansion; quasiquote builds exactly the template."
+  Vocabulary (`Spec/QQ.lean`): `tick` / `addTicks k` (polls of a context that is never cancelled),
+  `Std st` (debugger off, not cancelled), `NotMacro st env s`, `IsMacroCall st env ast`,
+  `CoreBound st env` (`cons`, `concat`, `vec` mean the builtins and `quote` is not a macro in `env`),
+  `qqSubst` / `qqElems` (the specification: a walk over the template that builds the value).
 -/
-import LispModel.Eval
+import LispModel.Proofs.QQEval
 namespace LispModel.Props.C12
-open LispModel
+open LispModel LispModel.Core LispModel.QQ
+
+/-! ### macros -/
+
+/-- "A macro receives its operands unevaluated": the macro function is applied (`bindParams`) to the
+    operand FORMS `args`, in a fresh child of the macro's definition scope; the form it returns is
+    expanded again in the caller's scope `env`. -/
+theorem macro_operands_unevaluated {F : Nat} {st : State} {env d : Nat} {s : String}
+    {p q fp : Option Pos} {args : List Val} {ps b : Val} {fe : Nat}
+    (h : st.get env s = some (.fn ps b fe true fp)) :
+    macroexpand (F+1) st env (.list (.sym s p :: args) q) d =
+      match bindParams ps args with
+      | .error e => (.err e, st)
+      | .ok data =>
+        match eval F (st.newScope fe data).1 (st.newScope fe data).2 b (d+1) with
+        | (.ok ast', st2) => macroexpand F st2 env ast' d
+        | r => r :=
+  Proofs.QQ.macroexpand_macro h
+
+/-- "Evaluating a macro call gives the same result and effects as evaluating its macroexpand
+    result", in the caller's scope `env` and at the same depth `d`: once `macroexpand` has turned the
+    form into `ast'` (leaving state `s1`, which holds the effects of running the macro functions),
+    the loop goes on exactly as an evaluation of `ast'` whose first poll leads to `s1`. -/
+theorem macro_call_eq_expansion {F : Nat} {st s0 s1 st0 : State} {env d : Nat} {xs : List Val}
+    {p : Option Pos} {ast' : Val}
+    (hp : st.poll = (false, s0))
+    (hm : macroexpand F s0 env (.list xs p) d = (.ok ast', s1))
+    (hp0 : st0.poll = (false, s1)) :
+    evalLoop (F+1) st env (.list xs p) d = evalLoop (F+1) st0 env ast' d :=
+  Proofs.QQ.macro_call_eq_expansion hp hm hp0
+
+/-- "…its macroexpand result, which is a form whose head is no longer a macro" (whatever the fuel:
+    a successful `macroexpand` only stops at such a form) -/
+theorem expansion_head_not_macro {F : Nat} {st st' : State} {env d : Nat} {ast ast' : Val}
+    (h : macroexpand F st env ast d = (.ok ast', st')) : ¬ IsMacroCall st' env ast' :=
+  Proofs.QQ.expansion_head_not_macro h
+
+/-- "Ordinary functions are unaffected": a form whose head does not resolve to a macro (a closure
+    without the macro flag, a builtin, anything else, or unbound) is its own expansion and nothing
+    happens. -/
+theorem functions_unaffected {F : Nat} {st : State} {env d : Nat} {s : String} {p q : Option Pos}
+    {args : List Val} (h : NotMacro st env s) :
+    macroexpand (F+1) st env (.list (.sym s p :: args) q) d = (.ok (.list (.sym s p :: args) q), st) :=
+  Proofs.QQ.functions_unaffected h
+
+/-- `defmacro` binds a COPY of the function value with the macro flag set… -/
+theorem defmacro_marks_copy {F : Nat} {st s2 : State} {env d : Nat} {name : String}
+    {pd pn p fp : Option Pos} {fexpr prm b : Val} {rest : List Val} {e : Nat} {flag : Bool}
+    (hc : st.cancelAt = none) (hnm : NotMacro st env "defmacro")
+    (hf : eval (F+1) (tick st) env fexpr (d+1) = (.ok (.fn prm b e flag fp), s2)) :
+    evalLoop (F+2) st env (.list (.sym "defmacro" pd :: .sym name pn :: fexpr :: rest) p) d =
+      (.ok (.fn prm b e true fp), s2.set env name (.fn prm b e true fp)) :=
+  Proofs.QQ.defmacro_marks_copy hc hnm hf
+
+/-- …and the function value itself is unchanged: `Env.Set` touches the one name of the one scope,
+    every other binding (e.g. one that holds the original function) keeps its value. -/
+theorem defmacro_touches_one_binding (st : State) (env : Nat) (k : String) (v : Val) (i : Nat)
+    (k' : String) (h : i ≠ env ∨ k ≠ k') :
+    Proofs.QQ.localGet (st.set env k v) i k' = Proofs.QQ.localGet st i k' :=
+  Proofs.QQ.set_other st env k v i k' h
+
+/-! ### quasiquote: the premise `CoreBound` -/
+
+/-- `CoreBound` holds in the root scope of the initial state… -/
+theorem coreBound_root : CoreBound initState 0 ∧ StoreWF initState :=
+  ⟨Proofs.QQ.coreBound_init, Proofs.QQ.storeWF_init⟩
+
+/-- …and is inherited by every child scope (a `let`, a function call, a `catch`) that does not bind
+    one of the four names, in a well-formed store (which child scopes keep well-formed). -/
+theorem coreBound_child {st : State} (hwf : StoreWF st) {env : Nat} (henv : env < st.scopes.size)
+    (hb : CoreBound st env) (data : List (String × Val))
+    (h1 : alookup "cons" data = none) (h2 : alookup "concat" data = none)
+    (h3 : alookup "vec" data = none) (h4 : alookup "quote" data = none) :
+    CoreBound (st.newScope env data).1 (st.newScope env data).2 ∧ StoreWF (st.newScope env data).1 :=
+  ⟨Proofs.QQ.coreBound_child hwf henv hb data h1 h2 h3 h4, Proofs.QQ.storeWF_newScope hwf henv data⟩
+
+/-! ### quasiquote builds exactly the template -/
+
+/-- "Evaluating a quasiquoted template returns the template with every unquote replaced by the value
+    of its expression and every splice-unquote replaced by the elements of its value, in place and in
+    order": whenever the specification `qqSubst` gives an outcome `r` (a value or an error) and state
+    `st'` for template `t`, evaluating the form `(quasiquote t)` gives, for all large enough fuel, the same
+    outcome `r` and the state `st'` up to `k` extra polls (`addTicks k st'` differs from `st'` in `ticks`
+    only: same scopes, atoms, trace, marks).  All templates of any nesting.
+    Premises: the standard side conditions; `quasiquote` is not a macro; an invariant `I` of the state
+    that implies `CoreBound` and is kept by every unquoted expression of `t` (they do not rebind `cons`,
+    `concat`, `vec`, `quote`: the generated code looks these names up at run time). -/
+theorem qq_eval_eq_subst {env : Nat} {I : State → Prop}
+    (hI : ∀ st, I st → CoreBound st env) {t : Val} {F : Nat} {st st' : State} {d : Nat} {r : Res Val}
+    {pq p : Option Pos} {rest : List Val}
+    (hq : NotMacro st env "quasiquote")
+    (hp : ∀ e ∈ qqExprs t, Preserves I env e) (hi : I st) (hs : Std st)
+    (h : qqSubst F env st t d = (r, st')) (hr : r ≠ .oof) :
+    ∃ F₀, ∀ F', F₀ ≤ F' → ∃ k,
+      evalLoop F' st env (.list (.sym "quasiquote" pq :: t :: rest) p) d = (r, addTicks k st') :=
+  Proofs.QQ.qq_form_eq_subst' hI hq hp hi hs h hr
+
+/-- the same for the code `quasiquote t` itself (what `quasiquoteexpand` returns), run by the loop -/
+theorem qq_code_eq_subst {env : Nat} {I : State → Prop}
+    (hI : ∀ st, I st → CoreBound st env) {t : Val} {F : Nat} {st st' : State} {d : Nat} {r : Res Val}
+    (hp : ∀ e ∈ qqExprs t, Preserves I env e) (hi : I st) (hs : Std st)
+    (h : qqSubst F env st t d = (r, st')) (hr : r ≠ .oof) :
+    ∃ F₀, ∀ F', F₀ ≤ F' → ∃ k, evalLoop F' st env (quasiquote t) d = (r, addTicks k st') :=
+  Proofs.QQ.qq_code_eq_subst' hI hp hi hs h hr
+
+/-- the converse: whenever evaluating the form `(quasiquote t)` ends (with any fuel) in an outcome `r`
+    — a value or an error — and state `s`, the specification yields the same outcome `r`, in a state
+    that differs from `s` in the poll counter only.  With `qq_eval_eq_subst`: the form and the
+    specification have the same outcomes, and one runs out of every fuel iff the other does. -/
+theorem qq_eval_only_subst {env : Nat} {I : State → Prop}
+    (hI : ∀ st, I st → CoreBound st env) {t : Val} {F' : Nat} {st s : State} {d : Nat} {r : Res Val}
+    {pq p : Option Pos} {rest : List Val}
+    (hq : NotMacro st env "quasiquote")
+    (hp : ∀ e ∈ qqExprs t, Preserves I env e) (hi : I st) (hs : Std st)
+    (h : evalLoop F' st env (.list (.sym "quasiquote" pq :: t :: rest) p) d = (r, s))
+    (hr : r ≠ .oof) :
+    ∃ F st' k, qqSubst F env st t d = (r, st') ∧ s = addTicks k st' :=
+  Proofs.QQ.qq_form_only_subst' hI hq hp hi hs h hr
+
+/-- the converse for the code `quasiquote t` -/
+theorem qq_code_only_subst {env : Nat} {I : State → Prop}
+    (hI : ∀ st, I st → CoreBound st env) {t : Val} {F' : Nat} {st s : State} {d : Nat} {r : Res Val}
+    (hp : ∀ e ∈ qqExprs t, Preserves I env e) (hi : I st) (hs : Std st)
+    (h : evalLoop F' st env (quasiquote t) d = (r, s)) (hr : r ≠ .oof) :
+    ∃ F st' k, qqSubst F env st t d = (r, st') ∧ s = addTicks k st' :=
+  Proofs.QQ.qq_code_only_subst' hI hp hi hs h hr
+
+/-- `addTicks` moves the poll counter and nothing else -/
+theorem addTicks_components (k : Nat) (st : State) :
+    (addTicks k st).scopes = st.scopes ∧ (addTicks k st).atoms = st.atoms ∧
+    (addTicks k st).trace = st.trace ∧ (addTicks k st).marks = st.marks ∧
+    (addTicks k st).cancelAt = st.cancelAt ∧ (addTicks k st).stepper = st.stepper :=
+  ⟨rfl, rfl, rfl, rfl, rfl, rfl⟩
+
+/-- "…in place and in order": the unquoted expressions are evaluated left to right, each in the state
+    its predecessor left, although `qq_loop` builds the `cons` forms from the right — for a template
+    `((unquote e₁) … (unquote eₙ))` the walk is the left-to-right sequence `seqEval` (and by
+    `qq_eval_eq_subst` so is the evaluation of the generated code). -/
+theorem qq_effect_order (F env : Nat) (es : List Val) (st : State) (d : Nat) :
+    qqElems F env st (es.map unq) d = seqEval F env st es d :=
+  Proofs.QQ.qq_effect_order F env es st d
+
+/-- "…with vectors staying vectors": what the generated code of a vector template returns is a vector
+    (for every fuel; implementation level, no reference to the specification)… -/
+theorem qq_vectors_stay_vectors {F : Nat} {st st' : State} {env d : Nat} {xs : List Val}
+    {p : Option Pos} {v : Val} (hs : Std st) (hb : CoreBound st env)
+    (h : evalLoop F st env (quasiquote (.vec xs p)) d = (.ok v, st')) : ∃ vs, v = .vec vs none :=
+  Proofs.QQ.qq_vec_impl hs hb h
+
+/-- …namely the vector of the elements the specification builds. -/
+theorem qq_vector_elements {F env : Nat} {st st' : State} {xs : List Val} {p : Option Pos} {d : Nat}
+    {v : Val} (h : qqSubst F env st (.vec xs p) d = (.ok v, st')) :
+    ∃ vs, v = .vec vs none ∧ qqElems F env st xs (d+1) = (.ok vs, st') :=
+  Proofs.QQ.qqSubst_vec_ok h
+
+/-- "…and everything else returned literally": a template without unquote / splice-unquote denotes
+    itself — `dropSeqPos t` is `t` with the reader positions of its lists and vectors dropped — and
+    nothing is evaluated (the state does not move). -/
+theorem qq_literal_parts_unchanged (F env : Nat) (t : Val) (st : State) (d : Nat)
+    (h : qqExprs t = []) : qqSubst F env st t d = (.ok (dropSeqPos t), st) :=
+  Proofs.QQ.qq_literal F env t st d h
+
+/-! ### deviations from the textbook rule (what the model, hence the Go code, really does) -/
+
+/-- `(unquote)` without operand is an ordinary list (not an error) -/
+theorem unquote_without_operand_is_a_list (p q : Option Pos) :
+    unquoteArg? (.list [.sym "unquote" p] q) = none := rfl
+
+/-- operands of `unquote` after the first are ignored (not an error); the same for `splice-unquote` -/
+theorem unquote_extra_operands_ignored (p q : Option Pos) (x y : Val) (tl : List Val) :
+    unquoteArg? (.list (.sym "unquote" p :: x :: y :: tl) q) = some x ∧
+    spliceArg? (.list (.sym "splice-unquote" p :: x :: y :: tl) q) = some x := ⟨rfl, rfl⟩
+
+/-- a hash-map inside a template is literal, `(unquote x)` inside it included -/
+theorem unquote_inside_map_is_literal (F env : Nat) (st : State) (m : List (String × Val)) (d : Nat) :
+    qqSubst F env st (.map m) d = (.ok (.map m), st) := rfl
+
+/-- `unquote` is recognised at the head of a LIST only: the vector `[unquote x]` is two literal symbols -/
+theorem unquote_in_vector_head_is_literal (F env : Nat) (st : State) (p q r : Option Pos) (d : Nat) :
+    qqSubst F env st (.vec [.sym "unquote" p, .sym "x" q] r) d =
+      (.ok (.vec [.sym "unquote" p, .sym "x" q] none), st) := rfl
+
+/-! ### non-vacuity: concrete programs on `initState`, evaluated by the kernel -/
+
+private def S (s : String) : Val := .sym s none
+private def L (xs : List Val) : Val := .list xs none
+private def V (xs : List Val) : Val := .vec xs none
+private def I (i : Int) : Val := .int i
+private def qq (t : Val) : Val := L [S "quasiquote", t]
+private def uq (t : Val) : Val := L [S "unquote", t]
+
+/-- observation: printed result (or `!` + printed error payload) and printed trace, oldest effect first -/
+private def obs (p : R) : Option (String × List String) :=
+  let tr (st : State) := st.trace.reverse.map (fun v => String.ofList (Print.print v))
+  match p with
+  | (.ok v, st) => some (String.ofList (Print.print v), tr st)
+  | (.err e, st) => some ("!" ++ String.ofList (Print.print (caughtValue e)), tr st)
+  | (.oof, _) => none
+
+/-- `` `(1 ~(trace! 2) ~@(trace! (list 3 4)) [5 ~(trace! 6)] {"k" ~7} sym) `` -/
+private def t1 : Val :=
+  L [I 1, uq (L [S "trace!", I 2]),
+     L [S "splice-unquote", L [S "trace!", L [S "list", I 3, I 4]]],
+     V [I 5, uq (L [S "trace!", I 6])], .map [("k", uq (I 7))], S "sym"]
+
+/-- the implementation and the specification on a nested template: effects left to right, the splice
+    in place, the vector a vector, the map literal -/
+example : obs (eval 60 initState 0 (qq t1) 0) =
+    some ("(1 2 3 4 [5 6] {\"k\" (unquote 7)} sym)", ["2", "(3 4)", "6"]) := by decide +kernel
+example : obs (qqSubst 60 0 initState t1 0) =
+    some ("(1 2 3 4 [5 6] {\"k\" (unquote 7)} sym)", ["2", "(3 4)", "6"]) := by decide +kernel
+
+/-- deviation: a splice of a non-sequence is reported only after the elements to its right have been
+    evaluated (their effects happen) -/
+example : obs (eval 60 initState 0 (qq (L [L [S "splice-unquote", I 1], uq (L [S "trace!", I 2])])) 0) =
+    some ("!«go-error \"GetSlice called on non-sequence\"»", ["2"]) := by decide +kernel
+
+/-- a macro defined from a template; its operand `(trace! 7)` arrives unevaluated and is evaluated
+    once, by the expansion -/
+private def pUnless : Val :=
+  L [S "do",
+     L [S "defmacro", S "unless2", L [S "fn", L [S "c", S "a"], qq (L [S "if", uq (S "c"), .nil, uq (S "a")])]],
+     L [S "unless2", .bool false, L [S "trace!", I 7]]]
+example : obs (eval 80 initState 0 pUnless 0) = some ("7", ["7"]) := by decide +kernel
+
+/-- a macro expanding to another macro; `macroexpand` goes on until the head is not a macro -/
+private def pChain (body : Val) : Val :=
+  L [S "do",
+     L [S "defmacro", S "m1", L [S "fn", L [S "x"], qq (L [S "m2", uq (S "x")])]],
+     L [S "defmacro", S "m2", L [S "fn", L [S "x"], qq (L [S "trace!", uq (S "x")])]],
+     body]
+example : obs (eval 80 initState 0 (pChain (L [S "m1", I 5])) 0) = some ("5", ["5"]) := by decide +kernel
+example : obs (eval 80 initState 0 (pChain (L [S "macroexpand", L [S "m1", I 5]])) 0) =
+    some ("(trace! 5)", []) := by decide +kernel
+
+/-- operands are not evaluated: the macro returns its operand form quoted, no effect happens -/
+private def pQuoteMacro : Val :=
+  L [S "do",
+     L [S "defmacro", S "q", L [S "fn", L [S "x"], L [S "list", L [S "quote", S "quote"], S "x"]]],
+     L [S "q", L [S "trace!", I 1]]]
+example : obs (eval 80 initState 0 pQuoteMacro 0) = some ("(trace! 1)", []) := by decide +kernel
+
+/-- a recursive macro -/
+private def pRec : Val :=
+  L [S "do",
+     L [S "defmacro", S "cnt", L [S "fn", L [S "n"],
+        L [S "if", L [S "=", S "n", I 0], I 0, qq (L [S "cnt", uq (L [S "-", S "n", I 1])])]]],
+     L [S "cnt", I 3]]
+example : obs (eval 120 initState 0 pRec 0) = some ("0", []) := by decide +kernel
 
 end LispModel.Props.C12
